@@ -34,6 +34,7 @@ TARGETED = {
     "multiline-fstring": 'x = 1\ns = f"""a\n{x}\nb"""\nprint(s)\n',
     "multiline-bytes": 's = b"""a\nb"""\nprint(s)\n',
     "dotted-import": "import os.path\nimport xml.dom.minidom\nprint(os.path.sep)\n",
+    "dotted-import-several": "import os.path, xml.dom.minidom, email.mime.text as t\nprint(os.path.sep, xml.dom.minidom.__name__, t.__name__)\n",
     "dotted-import-in-def": "def f():\n    import os.path\n    return os.path.sep\nprint(f())\n",
     "loop-target-rebound": "for i in range(3):\n    i = i + 1\n    print(i)\n",
     "loop-target-attribute": "class O: pass\no = O()\nfor o.x in range(2):\n    print(o.x)\n",
